@@ -6,6 +6,7 @@ import (
 	"fmt"
 	"go/token"
 	"go/types"
+	"os"
 	"sort"
 	"strings"
 
@@ -32,31 +33,32 @@ type Obligation struct {
 }
 
 type Exec struct {
-	P        *Program
-	Unit     string
-	Con      *Contract
-	Assumes  []*Term
-	Obls     []*Obligation
-	OOS      []string // out-of-subset notes
-	Inlined  map[string]bool
-	Used     map[string]bool // contracts used at call sites
-	Trusted  map[string]bool
-	cellCtr  int
-	errSite  int
-	depth    int
-	Inputs   []*Term
-	Recs     map[string]*RecDef
-	PanicOK  *Term // Φ: condition (over entry state) under which a panic is the specified behaviour
-	MayPanic bool
-	Covers   []*Obligation
-	splitHyp *Term
-	suffix   string
-	stack    []*ssa.Function
-	ghostCtr int
-	absDone  map[string]bool
-	funcCells map[*Cell]FuncV
-	ghosts   map[string]Val
-	split    splitRun
+	P            *Program
+	Unit         string
+	Con          *Contract
+	Assumes      []*Term
+	Obls         []*Obligation
+	OOS          []string // out-of-subset notes
+	Inlined      map[string]bool
+	Used         map[string]bool // contracts used at call sites
+	Trusted      map[string]bool
+	cellCtr      int
+	errSite      int
+	depth        int
+	Inputs       []*Term
+	Recs         map[string]*RecDef
+	PanicOK      *Term // Φ: condition (over entry state) under which a panic is the specified behaviour
+	MayPanic     bool
+	Covers       []*Obligation
+	splitHyp     *Term
+	suffix       string
+	stack        []*ssa.Function
+	ghostCtr     int
+	absDone      map[string]bool
+	funcCells    map[*Cell]FuncV
+	mapCells     map[*Cell]MapV
+	ghosts       map[string]Val
+	split        splitRun
 	AssumedNotes []string
 }
 
@@ -67,32 +69,32 @@ type retInfo struct {
 }
 
 type Frame struct {
-	ex      *Exec
-	fn      *ssa.Function
-	con     *Contract
-	vals    map[ssa.Value]Val
-	guard   map[*ssa.BasicBlock]*Term
-	memOut  map[*ssa.BasicBlock]Mem
-	outG    map[*ssa.BasicBlock]*Term // guard at block end (after narrowing)
-	edgeC   map[[2]int]*Term          // edge condition (from,to)
-	cells   map[ssa.Value]*Cell
-	rets    []retInfo
-	prefix  string
-	top     bool
-	params  []Val
-	entry   Mem
-	ord     map[ssa.Instruction]int
-	loops   []*Loop
-	loopOf  map[*ssa.BasicBlock]*Loop // header -> loop
-	backEdg map[[2]int]bool
-	cur     *Term
-	mem     Mem
-	defers  []*ssa.Defer
-	named   map[string]Val
-	env     *SpecEnv // entry environment (params, old)
-	order   []*ssa.BasicBlock
-	edgeOv  map[[2]int]edgeState
-	iterTag string
+	ex          *Exec
+	fn          *ssa.Function
+	con         *Contract
+	vals        map[ssa.Value]Val
+	guard       map[*ssa.BasicBlock]*Term
+	memOut      map[*ssa.BasicBlock]Mem
+	outG        map[*ssa.BasicBlock]*Term // guard at block end (after narrowing)
+	edgeC       map[[2]int]*Term          // edge condition (from,to)
+	cells       map[ssa.Value]*Cell
+	rets        []retInfo
+	prefix      string
+	top         bool
+	params      []Val
+	entry       Mem
+	ord         map[ssa.Instruction]int
+	loops       []*Loop
+	loopOf      map[*ssa.BasicBlock]*Loop // header -> loop
+	backEdg     map[[2]int]bool
+	cur         *Term
+	mem         Mem
+	defers      []*ssa.Defer
+	named       map[string]Val
+	env         *SpecEnv // entry environment (params, old)
+	order       []*ssa.BasicBlock
+	edgeOv      map[[2]int]edgeState
+	iterTag     string
 	lastUnknown string
 }
 
@@ -125,6 +127,32 @@ func (ex *Exec) assume(g, fact *Term) {
 }
 
 func (ex *Exec) oblige(name, kind, pos string, g, goal *Term) {
+	if os.Getenv("GOVC_SPLIT") != "" && goal.Op == "and" {
+		for i, c := range goal.Args {
+			ex.oblige(fmt.Sprintf("%s/c%d", name, i+1), kind, pos, g, c)
+		}
+		return
+	}
+	if os.Getenv("GOVC_SPLIT") != "" && goal.Op == "=>" && goal.Args[1].Op == "and" {
+		for i, c := range goal.Args[1].Args {
+			ex.oblige(fmt.Sprintf("%s/c%d", name, i+1), kind, pos, And(g, goal.Args[0]), c)
+		}
+		return
+	}
+	if os.Getenv("GOVC_SPLIT") != "" {
+		var shape func(t *Term, d int) string
+		shape = func(t *Term, d int) string {
+			if d == 0 || len(t.Args) == 0 {
+				return t.Op
+			}
+			s := "(" + t.Op
+			for _, a := range t.Args {
+				s += " " + shape(a, d-1)
+			}
+			return s + ")"
+		}
+		fmt.Fprintf(os.Stderr, "GOAL %s: %s\n", name, shape(goal, 3))
+	}
 	o := &Obligation{Name: ex.Unit + ex.suffix + "/" + name, Kind: kind, Func: ex.Unit, Pos: pos, Expect: "unsat"}
 	o.Hyps = append([]*Term{}, ex.Assumes...)
 	if ex.splitHyp != nil {
@@ -176,6 +204,9 @@ func (fr *Frame) findLoops() {
 				if p := in.Pos(); p.IsValid() {
 					if _, ok := in.(*ssa.DebugRef); ok {
 						continue
+					}
+					if _, ok := in.(*ssa.Phi); ok {
+						continue // a phi is positioned at its variable's declaration
 					}
 					if !lp.Pos.IsValid() || p < lp.Pos {
 						lp.Pos = p
@@ -235,7 +266,7 @@ func (fr *Frame) modifiedRoots(lp *Loop) (map[ssa.Value]bool, bool) {
 	mark := func(v ssa.Value) {
 		r := fr.rootOf(v)
 		switch r.(type) {
-		case *ssa.Alloc, *ssa.Parameter, *ssa.MakeSlice, *ssa.FreeVar:
+		case *ssa.Alloc, *ssa.Parameter, *ssa.MakeSlice, *ssa.FreeVar, *ssa.MakeMap:
 			roots[r] = true
 		default:
 			if _, ok := r.Type().Underlying().(*types.Pointer); ok {
@@ -256,7 +287,11 @@ func (fr *Frame) modifiedRoots(lp *Loop) (map[ssa.Value]bool, bool) {
 			case *ssa.Alloc:
 				roots[x] = true
 			case *ssa.MapUpdate:
-				mark(x.Map)
+				if ld, ok := x.Map.(*ssa.UnOp); ok && ld.Op == token.MUL {
+					mark(ld.X) // map held in a variable cell
+				} else {
+					mark(x.Map)
+				}
 			case ssa.CallInstruction:
 				cc := x.Common()
 				callee := cc.StaticCallee()
@@ -465,6 +500,8 @@ func (fr *Frame) term(v Val) (*Term, bool) {
 	switch x := v.(type) {
 	case TV:
 		return x.T, true
+	case MapV:
+		return fr.mem[x.Cell], fr.mem[x.Cell] != nil
 	case SliceV:
 		arr := fr.readPath(x.Cell, x.Path)
 		return MkSlice(SortOf(x.Typ), Sub(x.Hi, x.Lo), x.Lo, arr), true
